@@ -113,3 +113,16 @@ Definition produce_ok (parse : ropts -> bytes -> presult) (render : wopts -> lis
   no_panic obs &&
   (if negb (s_usable s) then is_error obs
    else delivered_ok render o (expected (source_input parse o s) o) false obs true rep).
+
+(* ---------- histories: ONE consumer / producer value used for several calls ---------- *)
+(* The options are fixed when the codec value is built; a codec value carries nothing from one call to the next
+   (no counter that runs down, no buffer that an earlier result still looks at). The expected observable of a
+   history is therefore the map of the single-call function over its calls, all under the SAME options, and what a
+   call delivered reads the same after every later call. *)
+Definition consume_history (parse : ropts -> bytes -> presult) (render : wopts -> list record -> bytes)
+           (o : opts) (l : list (dest * bytes)) : list outcome :=
+  map (fun x => consume parse render o (fst x) (snd x)) l.
+
+Definition produce_history (parse : ropts -> bytes -> presult) (render : wopts -> list record -> bytes)
+           (o : opts) (l : list source) : list outcome :=
+  map (fun s => produce parse render o s) l.
